@@ -60,6 +60,11 @@ def case_tags(case):
     owners = [r['owner'] for r in m['rels']]
     if len(owners) != len(set(owners)):
         tags.add('multi-rel-parent')
+    for r in m['rels']:       # a group whose owner also has a mandatory child: mandsib-<kind of the group>
+        n = len(r['kids'])
+        if n > 1 and any(q['owner'] == r['owner'] and len(q['kids']) == 1 and (q['lo'], q['hi']) == (1, 1) for q in m['rels']):
+            tags.add('mandsib-' + ('alternative' if (r['lo'], r['hi']) == (1, 1) else 'or' if (r['lo'], r['hi']) == (1, n)
+                                   else 'mutex' if (r['lo'], r['hi']) == (0, 1) else 'cardinality'))
     if not m['rels']:
         tags.add('root-only')
     if m['ctcs']:
@@ -240,6 +245,29 @@ def ops_script(ops):
                 fobj = b.objs[name] if name else None
                 events.append(observe.exec_op(o, oid, op, b.model, naming, fobj, seqno=k + 2))
                 events.append(observe.exec_op(observe.new_op(op), 900 + oid, op, b.model, naming, fobj, seqno=k + 2))
+        # a model a READER built (the library's own document of this model, JSON or UVL in turn): the operations on it
+        hh = int(hashlib.md5(repr(case['hist']).encode()).hexdigest(), 16)
+        if not edits_of(case) and hh % 4 == 0 and all(f['ftype'] == 'Boolean' for f in case['model']['feats']):
+            fmt = 'json' if hh % 8 == 0 else 'uvl'
+            wev, path, _ = formats.write_event(fmt, b.model, naming)
+            if wev['out'] == 'value':
+                rev, model2 = formats.read_event(fmt, path, naming)
+                if rev['out'] == 'value' and model2 is not None and not rev['anom']:
+                    events += [wev, rev]
+                    feats2 = {}
+                    stack = [model2.root]
+                    while stack:
+                        f = stack.pop()
+                        feats2[naming.abs(f.name)] = f
+                        for r in f.relations:
+                            stack.extend(r.children)
+                    for o, oid, op, name in objs:
+                        if name is not None and name not in feats2:
+                            continue
+                        events.append(observe.exec_op(observe.new_op(op), 700 + oid, op, model2, naming, feats2[name] if name else None, seqno=9))
+            if os.path.exists(path):
+                os.remove(path)
+            return events, None
         # the SAME model object, edited in place, analysed again by the SAME operation objects
         if not edits_of(case) and hash(repr(case['hist'])) % 3 == 0:
             edited = flip_first_relation(case, b)
@@ -369,7 +397,13 @@ def script_c17(case, naming, tier, seed):
         flt = list(METRIC_METHODS)
     else:
         flt = rnd.sample(METRIC_METHODS, rnd.randrange(2, 12))
-    events.append(observe.exec_metrics(observe.new_op('metrics'), 2, b.model, naming, flt=flt))
+    fobj = observe.new_op('metrics')
+    mine = list(flt)                      # the caller's own filter list: handed in once, the object executed twice
+    events.append(observe.exec_metrics(fobj, 2, b.model, naming, flt=flt, caller_list=mine))
+    if len(case['hist']) % 2 == 0:
+        events.append(observe.exec_metrics(fobj, 2, b.model, naming, flt=flt, seqno=2, apply_filter=False))
+        # ... and another object given the caller's list afterwards
+        events.append(observe.exec_metrics(observe.new_op('metrics'), 5, b.model, naming, flt=flt, caller_list=mine))
     for k, h in enumerate(edits_of(case)):      # in-place edits: the same FMMetrics object again, and a fresh one
         events.append(b.event_for(h))
         events.append(observe.exec_metrics(obj, 1, b.model, naming, seqno=k + 3))
@@ -943,7 +977,7 @@ REF_FORMATS = {
                         'op:NOT', 'op:AND', 'op:OR', 'op:IMPLIES', 'op:EQUIVALENCE', 'op:REQUIRES', 'op:EXCLUDES'],
                 ok=lambda m: True),
     'glencoe': dict(surface='Surface-glencoe', sources=['Ref-glencoe-Ctc', 'glencoe-Tree', 'Ref-glencoe-Chain', 'glencoe-Dup', 'glencoe-Ctc2'], size=18,
-                    wanted=['and-in-or', 'or-in-and', 'xor-in-and', 'and-in-xor', 'chain6', 'chain7', 'chain10', 'chain12', 'dupctc', 'sameshapectc', 'mandatory', 'optional', 'or', 'alternative', 'mutex', 'cardinality', 'op:NOT', 'op:AND', 'op:OR',
+                    wanted=['mandsib-cardinality', 'mandsib-mutex', 'mandsib-or', 'mandsib-alternative', 'and-in-or', 'or-in-and', 'xor-in-and', 'and-in-xor', 'chain6', 'chain7', 'chain10', 'chain12', 'dupctc', 'sameshapectc', 'mandatory', 'optional', 'or', 'alternative', 'mutex', 'cardinality', 'op:NOT', 'op:AND', 'op:OR',
                             'op:XOR', 'op:IMPLIES', 'op:EQUIVALENCE', 'op:REQUIRES', 'op:EXCLUDES'],
                     ok=lambda m: len({c['name'] for c in m['ctcs']}) == len(m['ctcs'])),
 }
